@@ -422,39 +422,39 @@ answered before the operation, its new value what `font.glyphOrder` answers when
 the operation (payload = the stored lib value, compared modulo `None == []`); and WHENEVER `font.glyphOrder` answers
 differently after the operation than before it, that notification IS delivered.  (`stepN` is M-GlyphOrder, the model
 C12 is proved about, plus the one post of `_set_glyphOrder`: `order_model_is_glyph_order_model`.) -/
-theorem glyph_order_change_announced (f : GlyphOrder.Font) (op : GlyphOrder.Op) (h : OrderNotify.viaFont op = true) :
+theorem glyph_order_change_announced (f : GlyphOrderV1.Font) (op : GlyphOrderV1.Op) (h : OrderNotify.viaFont op = true) :
     (∀ ev ∈ (OrderNotify.stepN f op).2,
-      OrderNotify.norm ev.old = GlyphOrder.glyphOrder f ∧ OrderNotify.norm ev.new = OrderNotify.norm ev.snap ∧
-      OrderNotify.norm ev.snap = GlyphOrder.glyphOrder (OrderNotify.stepN f op).1.1) ∧
+      OrderNotify.norm ev.old = GlyphOrderV1.glyphOrder f ∧ OrderNotify.norm ev.new = OrderNotify.norm ev.snap ∧
+      OrderNotify.norm ev.snap = GlyphOrderV1.glyphOrder (OrderNotify.stepN f op).1.1) ∧
     (OrderNotify.stepN f op).2.length ≤ 1 ∧
-    (GlyphOrder.glyphOrder (OrderNotify.stepN f op).1.1 ≠ GlyphOrder.glyphOrder f →
+    (GlyphOrderV1.glyphOrder (OrderNotify.stepN f op).1.1 ≠ GlyphOrderV1.glyphOrder f →
       (OrderNotify.stepN f op).2.length = 1) :=
   OrderNotify.stepN_announced f op h
 
 /-- … in particular after every history -/
-theorem glyph_order_change_announced_after_history (ops : List GlyphOrder.Op) (op : GlyphOrder.Op)
+theorem glyph_order_change_announced_after_history (ops : List GlyphOrderV1.Op) (op : GlyphOrderV1.Op)
     (h : OrderNotify.viaFont op = true)
-    (hne : GlyphOrder.glyphOrder (OrderNotify.stepN (GlyphOrder.run {} ops) op).1.1 ≠
-      GlyphOrder.glyphOrder (GlyphOrder.run {} ops)) :
-    ∃ ev, (OrderNotify.stepN (GlyphOrder.run {} ops) op).2 = [ev] ∧
-      OrderNotify.norm ev.old = GlyphOrder.glyphOrder (GlyphOrder.run {} ops) ∧
-      OrderNotify.norm ev.new = GlyphOrder.glyphOrder (OrderNotify.stepN (GlyphOrder.run {} ops) op).1.1 := by
-  obtain ⟨ht, _, hl⟩ := glyph_order_change_announced (GlyphOrder.run {} ops) op h
+    (hne : GlyphOrderV1.glyphOrder (OrderNotify.stepN (GlyphOrderV1.run {} ops) op).1.1 ≠
+      GlyphOrderV1.glyphOrder (GlyphOrderV1.run {} ops)) :
+    ∃ ev, (OrderNotify.stepN (GlyphOrderV1.run {} ops) op).2 = [ev] ∧
+      OrderNotify.norm ev.old = GlyphOrderV1.glyphOrder (GlyphOrderV1.run {} ops) ∧
+      OrderNotify.norm ev.new = GlyphOrderV1.glyphOrder (OrderNotify.stepN (GlyphOrderV1.run {} ops) op).1.1 := by
+  obtain ⟨ht, _, hl⟩ := glyph_order_change_announced (GlyphOrderV1.run {} ops) op h
   have h1 := hl hne
-  match hevs : (OrderNotify.stepN (GlyphOrder.run {} ops) op).2, h1 with
+  match hevs : (OrderNotify.stepN (GlyphOrderV1.run {} ops) op).2, h1 with
   | [ev], _ =>
     have := ht ev (by simp [hevs])
     exact ⟨ev, rfl, this.1, this.2.1.trans this.2.2⟩
 
 /-- M-OrderNotify changes nothing of M-GlyphOrder: same font, same result, for every operation. -/
-theorem order_model_is_glyph_order_model (f : GlyphOrder.Font) (op : GlyphOrder.Op) :
-    (OrderNotify.stepN f op).1 = GlyphOrder.step f op :=
+theorem order_model_is_glyph_order_model (f : GlyphOrderV1.Font) (op : GlyphOrderV1.Op) :
+    (OrderNotify.stepN f op).1 = GlyphOrderV1.step f op :=
   OrderNotify.stepN_fst f op
 
 /-- a font that stores the order B, A: a new glyph, a rename and a delete are each announced with the order before
 and the order after; a glyph that is already listed changes nothing and is not announced -/
 example :
-    let f : GlyphOrder.Font := { layers := [("fore", { glyphs := ["A", "B"], observed := true })], lib := some ["B", "A"] }
+    let f : GlyphOrderV1.Font := { layers := [("fore", { glyphs := ["A", "B"], observed := true })], lib := some ["B", "A"] }
     ((OrderNotify.stepN f (.newGlyph "fore" "C")).2, (OrderNotify.stepN f (.rename "fore" "A" "A.alt")).2,
      (OrderNotify.stepN f (.delGlyph "fore" "B")).2, (OrderNotify.stepN f (.newGlyph "fore" "A")).2) =
     ([⟨some ["B", "A"], some ["B", "A", "C"], some ["B", "A", "C"]⟩],
@@ -462,7 +462,7 @@ example :
      [⟨some ["B", "A"], some ["A"], some ["A"]⟩], []) := by decide
 /-- the last glyph of the order deleted: the key leaves the lib, the payload says `None`, the getter `[]` -/
 example :
-    let f : GlyphOrder.Font := { layers := [("fore", { glyphs := ["A"], observed := true })], lib := some ["A"] }
+    let f : GlyphOrderV1.Font := { layers := [("fore", { glyphs := ["A"], observed := true })], lib := some ["A"] }
     (OrderNotify.stepN f (.delGlyph "fore" "A")).2 = [⟨some ["A"], none, none⟩] := by decide
 
 /-! ### 6c. The direction of a contour, zero area included -/
